@@ -1,11 +1,15 @@
 #!/bin/bash
-# runs every seeded change against its own property's quick check (plus extra checks listed in
-# seeded/<id>/extra_checks, if present) and writes seeded/RESULTS.tsv
+# runs seeded changes against their own property's quick check (plus extra checks listed in
+# seeded/<id>/extra_checks, if present) and writes seeded/RESULTS.tsv (or RESULTS_<tag>.tsv)
+# usage: tools/seed_battery.sh [glob-of-ids, default 'C??-?'] [tag]
 cd /verif
-: > seeded/RESULTS.tsv
-for d in seeded/C??-?; do
+PAT=${1:-C??-?}
+OUT=seeded/RESULTS${2:+_$2}.tsv
+: > $OUT
+for d in seeded/$PAT; do
+  [ -f $d/patch.diff ] || continue
   id=$(basename $d)
   pids=${id%%-*}
   [ -f $d/extra_checks ] && pids="$pids $(cat $d/extra_checks)"
-  tools/seed_run.sh $id $pids | while read -r line; do echo "$line" | tr ' ' '\t' >> seeded/RESULTS.tsv; done
+  tools/seed_run.sh $id $pids | while read -r line; do echo "$line" | tr ' ' '\t' >> $OUT; done
 done
